@@ -402,7 +402,8 @@ def s16_nan_sources(ctx):
         if not bj['generic'] or '::tests::' in bj['def'] or 'helpers::' in bj['def'] and 'RandomCandles' in bj['def']:
             continue
         fname = bj['def'].rsplit('::', 1)[-1]
-        if fname in CTOR_FNS or bj['def'].startswith('helpers::assert') or bj['def'].startswith('helpers::signi'):
+        owner = bj['def'].split('::{closure')[0].rsplit('::', 1)[-1]       # a closure written inside a constructor is constructor code
+        if fname in CTOR_FNS or owner in CTOR_FNS or bj['def'].startswith('helpers::assert') or bj['def'].startswith('helpers::signi'):
             continue
         # a private helper that is only called inside the crate is analysed where it is used: the callers below are analysed with their
         # private helpers inlined, so that an operand computed in a helper and used by the caller (or the reverse) is one expression
